@@ -133,7 +133,10 @@ RandNext ==
     /\ NHoles(tree) > 0
     /\ LET coin == RandomElement(1..5)
            it == Items[RandomElement(1..Len(Items))]
-       IN IF coin <= 2 /\ budget > 0 /\ NoSameConst(it) THEN FillWith(it, 1) ELSE FillWith(VAuto, 0)
+           \* at most two instances of user node classes per tree (the handler subsets multiply)
+           nUser == Cardinality({ i \in 1..Len(Pre(tree)) : Pre(tree)[i].t = "UNode" })
+       IN IF coin <= 2 /\ budget > 0 /\ NoSameConst(it) /\ (it.t = "UNode" => nUser < 2)
+          THEN FillWith(it, 1) ELSE FillWith(VAuto, 0)
 Next == IF Tier = "random" THEN RandNext ELSE ExhNext
 
 Complete == NHoles(tree) = 0
@@ -226,8 +229,8 @@ ContractsSatisfiable(t, cs) ==
 \* class in the tree and every set of added handlers - also with the base class's stub
 \* map_algebraic_leaf (which raises) counted as implemented
 UserDispatchOK(t, cs) ==
-    \A u \in UsersOf(t) : \A c \in cs :
-        LET I == SeqToSet(c.impl)  nm == UNames(u) IN
+    \A u \in UsersOf(t) : \A I \in { SeqToSet(c.impl) : c \in cs } :
+        LET nm == UNames(u) IN
         /\ UTargetImpl(u, I) = UTarget(u, I)
         /\ UTarget(u, I) = "unsupported" <=> \A k \in 1..Len(nm) : nm[k] \notin I
         /\ UTarget(u, I) = "unsupported" =>
